@@ -11,15 +11,15 @@ import (
 
 // startInfo gathers the anchors of Client.Start used by the gate rules.
 type startInfo struct {
-	p      *Prog
-	f      *Func
-	g      *Graph
-	info   *types.Info
-	commit *Node      // c.address = addr (the last such store)
-	commits []*Node   // every store to Client.address in Start
-	lineN  *Node      // the select clause that received the handshake line
-	parts  *types.Var // strings.Split(line, "|")
-	launch map[*Node]string
+	p       *Prog
+	f       *Func
+	g       *Graph
+	info    *types.Info
+	commit  *Node      // c.address = addr (the last such store)
+	commits []*Node    // every store to Client.address in Start
+	lineN   *Node      // the select clause that received the handshake line
+	parts   *types.Var // strings.Split(line, "|")
+	launch  map[*Node]string
 }
 
 func (p *Prog) startInfo(c *Ctx, rule string) *startInfo {
